@@ -53,6 +53,8 @@ def enumerate_cases(tier, seed):
     cases = [{"id": "expr|" + g.canon(s), "leg": "expr", "spec": s, "x64": True, "tier": tier, "seed": seed} for s in sel]
     for d in DISTS:
         cases.append({"id": f"dist|{d}", "leg": "dist", "dist": d, "x64": True, "tier": tier, "seed": seed})
+    for x64 in (True, False):
+        cases.append({"id": f"scalar-ctor|x64={int(x64)}", "leg": "scalars", "x64": x64, "tier": tier, "seed": seed})
     for f in c01.FACTORIES:
         for inv in (True, False):
             for cond in (None, 2):
@@ -290,6 +292,51 @@ def _dist(case, add):
     return tr, tr, {"model": name, "x": np.asarray(X[0]).tolist()}
 
 
+def _scalars(case, add):
+    """Models built from PYTHON SCALARS (weak-typed inputs), evaluated on float16/float32/float64 inputs: the round
+    trips must preserve dtype and value bit for bit."""
+    import jax
+    import jax.numpy as jnp
+
+    import flowjax.bijections as B
+    import flowjax.distributions as D
+
+    def models(a, b):
+        return {
+            "Loc": B.Loc(a), "Scale": B.Scale(b), "Affine": B.Affine(a, b), "Chain(Loc,Tanh)": B.Chain([B.Loc(a), B.Tanh(())]),
+            "Invert(Loc)": B.Invert(B.Loc(a)), "Loc(int)": B.Loc(jnp.arange(1)[0] + 2), "Normal": D.Normal(a, b), "StudentT": D.StudentT(3.0, a, b),
+            "Uniform": D.Uniform(a - 1.0, a + b), "Exponential": D.Exponential(b), "LeakyTanh": B.LeakyTanh(2), "RQS": B.RationalQuadraticSpline(knots=2, interval=3),
+        }
+
+    tr = 0
+    ms, fresh = models(0.3, 1.7), models(-0.9, 0.6)
+    dts = [jnp.float16, jnp.float32] + ([jnp.float64] if jax.config.jax_enable_x64 else [])
+    for name, m in ms.items():
+        flat = jax.tree_util.tree_unflatten(*reversed(jax.tree_util.tree_flatten(m)))
+        try:
+            ser = _roundtrip_serialise(m, fresh[name])
+        except Exception as e:
+            add(f"scalar-ctor:{name}|serialise|raises|{type(e).__name__}", f"{name} built from Python scalars: serialise -> deserialise into a freshly built model raised {type(e).__name__}: {str(e)[:200]}")
+            ser = None
+        for dt in dts:
+            x = jnp.asarray(0.4, dt)
+            calls = {"transform_and_log_det": lambda o: o.transform_and_log_det(x), "inverse_and_log_det": lambda o: o.inverse_and_log_det(x)} \
+                if isinstance(m, B.AbstractBijection) else {"log_prob": lambda o: o.log_prob(x)}
+            for cn, call in calls.items():
+                ref = call(m)
+                for nm, other in (("flatten-unflatten", flat), ("serialise", ser)):
+                    if other is None:
+                        continue
+                    tr += 1
+                    got = call(other)
+                    la, lb = jax.tree_util.tree_leaves(got), jax.tree_util.tree_leaves(ref)
+                    same = all(p.dtype == q.dtype and np.array_equal(np.asarray(p), np.asarray(q), equal_nan=True) for p, q in zip(la, lb))
+                    if not same:
+                        add(f"scalar-ctor:{name}|{nm}|{cn}", f"{name} built from Python scalars, input {jnp.dtype(dt).name}: {cn} after {nm} gives "
+                                                               f"{[(str(p.dtype), np.asarray(p).tolist()) for p in la]} instead of {[(str(q.dtype), np.asarray(q).tolist()) for q in lb]}")
+    return tr, tr, {"models": list(ms), "dtypes": [jnp.dtype(d).name for d in dts]}
+
+
 def run_case(case):
     viols, seen = [], {}
 
@@ -298,7 +345,7 @@ def run_case(case):
         if seen[sig] <= 1:
             viols.append({"sig": "C14|" + sig, "msg": msg, "detail": {}})
 
-    tr, nt, sample = (_expr if case["leg"] == "expr" else _dist)(case, add)
+    tr, nt, sample = {"expr": _expr, "dist": _dist, "scalars": _scalars}[case["leg"]](case, add)
     return {"transitions": tr, "traces": tr, "states": 1, "nontrivial": nt, "violations": viols,
             "outcomes": {f"{case['leg']}:{'ok' if not viols else 'BAD'}": 1},
             "digest": hashlib.sha1(repr(sample).encode()).hexdigest(), "sample": sample}
